@@ -1,106 +1,109 @@
 import Fabio.Generated.C12
 import Fabio.Props.C12
-/-! Obligations over the facts regenerated from `/repo` on every run (gate order, statuses, tags). -/
+/-!
+OBLIGATIONS over the facts regenerated from `/repo` on every run (`tools/factgen/c12.go`): statements the proof
+chain needs and that a correspondence stream cannot establish by running the code — the control-flow contract of
+the gates ("the gate comes before the dial / the handler / the redirect answer, on every path, and nothing is
+looked up again after it"), and what holds under concurrency (the request path only reads the rule map, the auth
+schemes store nothing). Each names the breaking change it is there to exclude and is stated as a relation between
+events (an order, a membership, emptiness), not as equality with a spelled-out list; the literal lists, statuses,
+tags and shapes of sequential code live in `C12Pins.lean` (change detectors). Core only, `decide`.
+-/
 namespace Fabio.Props.C12Facts
 open Fabio Fabio.Model.C12 Fabio.Generated.C12
 
 def steps (xs : List String) : Option (List Step) := xs.mapM stepOfString
 
-/-- `HTTPProxy.ServeHTTP`: lookup, then the access check, then authentication, then the redirect answer of a
-`redirect=` route, then the first reference to anything that contacts an upstream (a dial function, the handler's `ServeHTTP`); events are callee names in visit
-order with unexported helpers inlined. -/
-theorem http_order_pinned : steps httpOrder = some [.lookup, .access, .auth, .redirect, .upstream] := by decide
+/-- no target is looked up once the access check has run: the target that is dialled (redirected to, handed to the
+handler) is the one the gate judged -/
+def lookupOnlyBeforeGate (ss : List Step) : Bool := (ss.dropWhile (· != .access)).all (· != .lookup)
 
-/-- Both gates are top-level statements `if <check> { http.Error(…); return }` of the function body. -/
+/-- the events are known steps, `gates` all come before the first upstream contact — which exists — and before the
+redirect answer, and nothing is looked up after the access check -/
+def gated (gates : List Step) (xs : List String) : Bool :=
+  match steps xs with
+  | some ss => gateOrdered gates ss && redirectOrdered gates ss && ss.contains .upstream && lookupOnlyBeforeGate ss
+  | none => false
+
+/-- `HTTPProxy.ServeHTTP` (events = callee names in visit order, unexported helpers and local closures followed at
+their call sites): lookup, access check and authentication happen before the first thing that contacts an upstream
+(a dial function, the handler's `ServeHTTP`) and before `http.Redirect`, and the target is not looked up again.
+Excludes: the redirect answer or the reverse proxy moved ahead of a gate (seeded m6); a second lookup after the
+gate whose target is used unchecked, on a path no stream provokes (retry on a timeout, on a 5xx, …). -/
+theorem http_gates_precede_upstream : gated [.lookup, .access, .auth] httpOrder = true := by decide
+
+/-- Both gates are links `if <check> { http.Error(…); return }` of a top-level if / else-if chain whose earlier links
+all return. Excludes: a gate that answers but falls through, or sits behind a non-returning branch (seeded m3). -/
 theorem http_gates_return : httpGatesReturn = true := by decide
 
-/-- Hence (by `gate_before_upstream` at the regenerated order) `ServeHTTP` reaches an upstream only for a
-request that found a route, passed the access rules and was authorized. -/
+/-- Hence (`gate_before_upstream` at the regenerated order) `ServeHTTP` reaches an upstream only for a request that
+found a route, passed the access rules and was authorized. -/
 theorem http_gate_before_upstream (env : Env) (ss : List Step) (hs : steps httpOrder = some ss)
     (h : (runGate env ss false).2 = true) :
     env.found = true ∧ env.denied = false ∧ env.authorized = true := by
-  have : ss = [.lookup, .access, .auth, .redirect, .upstream] := by
-    have := http_order_pinned; rw [hs] at this; exact Option.some.inj this
-  subst this
-  exact Props.C12.gate_before_upstream env _ (by decide) h
+  have hg := http_gates_precede_upstream
+  simp only [gated, hs, Bool.and_eq_true] at hg
+  exact Props.C12.gate_before_upstream env ss hg.1.1.1 h
 
 /-- … and answers with the route's redirect only such a request: a denied or unauthenticated request to a
 redirect route gets 403/401, not 3xx. -/
 theorem http_gate_before_redirect (env : Env) (ss : List Step) (hs : steps httpOrder = some ss)
     (h : (runGate env ss false).1 = .redirected) :
     env.found = true ∧ env.denied = false ∧ env.authorized = true := by
-  have : ss = [.lookup, .access, .auth, .redirect, .upstream] := by
-    have := http_order_pinned; rw [hs] at this; exact Option.some.inj this
-  subst this
-  exact Props.C12.gate_before_redirect env _ false (by decide) h
+  have hg := http_gates_precede_upstream
+  simp only [gated, hs, Bool.and_eq_true] at hg
+  exact Props.C12.gate_before_redirect env ss false hg.1.1.2 h
 
-theorem http_statuses_pinned : httpDeniedStatus = "403" ∧ httpUnauthorizedStatus = "401" := by decide
+/-- The three TCP proxies: lookup and access check before the dial, no lookup afterwards.
+Excludes: the check moved behind the dial; a replacement target fetched after a failed dial and connected to
+without asking its rules (seeded m8 — a stream sees it only for the failure it provokes, a refused connection). -/
+theorem tcp_gates_precede_dial :
+    gated [.lookup, .access] tcpOrder = true ∧ gated [.lookup, .access] sniOrder = true ∧
+    gated [.lookup, .access] dynOrder = true := by decide
 
-/-- The three TCP proxies: lookup, access check, then the dial; the check's body returns; the inbound
-connection is closed by the leading `defer in.Close()`. -/
-theorem tcp_orders_pinned :
-    steps tcpOrder = some [.lookup, .access, .upstream] ∧
-    steps sniOrder = some [.lookup, .access, .upstream] ∧
-    steps dynOrder = some [.lookup, .access, .upstream] := by decide
-
-theorem tcp_gates_return_and_close :
-    (tcpGateReturns && sniGateReturns && dynGateReturns && tcpDeferClose && sniDeferClose && dynDeferClose) = true := by
-  decide
+/-- … and the body of the gate returns (the deferred `Close` then ends the inbound connection). -/
+theorem tcp_gates_return : (tcpGateReturns && sniGateReturns && dynGateReturns) = true := by decide
 
 theorem tcp_gate_before_upstream (env : Env) (ss : List Step)
     (hs : steps tcpOrder = some ss ∨ steps sniOrder = some ss ∨ steps dynOrder = some ss)
     (h : (runGate env ss false).2 = true) : env.found = true ∧ env.denied = false := by
-  have : ss = [.lookup, .access, .upstream] := by
-    obtain ⟨h1, h2, h3⟩ := tcp_orders_pinned
+  obtain ⟨h1, h2, h3⟩ := tcp_gates_precede_dial
+  have hg : gateOrdered [.lookup, .access] ss = true := by
     rcases hs with hs | hs | hs
-    · rw [hs] at h1; exact Option.some.inj h1
-    · rw [hs] at h2; exact Option.some.inj h2
-    · rw [hs] at h3; exact Option.some.inj h3
-  subst this
-  exact Props.C12.gate_before_upstream_tcp env _ (by decide) h
+    · simp only [gated, hs, Bool.and_eq_true] at h1; exact h1.1.1.1
+    · simp only [gated, hs, Bool.and_eq_true] at h2; exact h2.1.1.1
+    · simp only [gated, hs, Bool.and_eq_true] at h3; exact h3.1.1.1
+  exact Props.C12.gate_before_upstream_tcp env ss hg h
 
-/-- `GrpcProxyInterceptor.Stream`: lookup, then the access check on the peer address (a top-level
-`if … { return status.Error(codes.PermissionDenied, …) }`), then the route's auth scheme on the call's
-`authorization` metadata (`Target.Authorized`; failure answers `Unauthenticated`), then the handler that runs the
-director and dials (repair of D31, both halves). -/
-theorem grpc_order_pinned : steps grpcOrder = some [.lookup, .access, .auth, .upstream] := by decide
+/-- `GrpcProxyInterceptor.Stream`: lookup, the access check on the peer address and the route's auth scheme on the
+call's `authorization` metadata come before the call of the handler (the 4th parameter), which runs the director
+and dials; the access gate is a top-level `if … { return status.Error(…) }` (repairs of D31). -/
+theorem grpc_gates_precede_handler : gated [.lookup, .access, .auth] grpcOrder = true := by decide
 
-theorem grpc_gate_returns : grpcGateReturns = true ∧ grpcDeniedCode = "PermissionDenied" := by decide
+theorem grpc_gate_returns : grpcGateReturns = true := by decide
 
 /-- Hence the gRPC path reaches a backend only for a call that found a route, whose peer the rules admit and
 whose credentials the route's scheme accepts. -/
 theorem grpc_gate_before_upstream (env : Env) (ss : List Step) (hs : steps grpcOrder = some ss)
     (h : (runGate env ss false).2 = true) :
     env.found = true ∧ env.denied = false ∧ env.authorized = true := by
-  have : ss = [.lookup, .access, .auth, .upstream] := by
-    have := grpc_order_pinned; rw [hs] at this; exact Option.some.inj this
-  subst this
-  exact Props.C12.gate_before_upstream env _ (by decide) h
+  have hg := grpc_gates_precede_handler
+  simp only [gated, hs, Bool.and_eq_true] at hg
+  exact Props.C12.gate_before_upstream env ss hg.1.1.1 h
 
-/-- `AccessDeniedTCP` decides by calling `AccessDeniedAddr`, the function the gRPC interceptor uses: one
-decision (the model's `accessDeniedTCP`) for TCP connections and gRPC peers. -/
-theorem tcp_and_grpc_share_decision : tcpDelegatesToAddr = true := by decide
+/-- The request path only READS the rule map: none of `AccessDeniedHTTP`, `AccessDeniedTCP`, `AccessDeniedAddr`,
+`denyByIP`, `Authorized` stores into `accessRules` or reaches, through calls inside package route, a function that
+does; the stores sit behind `addTarget`, which runs before the target is published in a table. This is the
+hypothesis of `first_requests_agree` (any number of requests, any interleaving: everyone gets the sequential
+decision). Excludes: rules parsed on first use / a cache filled in on the request path (seeded m9) — right for every
+single request, wrong only when the first requests for a fresh target overlap. -/
+theorem request_path_reads_only :
+    requestPathReachesRuleMapStore = [] ∧ addTargetReachesRuleMapStore = true := by decide
 
-/-- Every auth scheme (a type of package `auth` with an `Authorized` method) is a struct of a string (realm) and
-the htpasswd file handle, nothing else (no cache, no counters, no lock), and `Authorized` — helpers inlined —
-only reads the request's credentials (`BasicAuth`), sets the challenge header (`Header`, `Set`) and asks the
-file (`Match`), storing into nothing but local variables: the decision is a function of the attempt and the
-file (`auth_decision_depends_only_on_attempt`). Field, parameter and type names are not pinned. -/
-theorem auth_schemes_are_stateless :
-    authSchemeTypes = 1 ∧ authSchemeFieldTypes = ["*htpasswd.File", "string"] ∧
-    authorizedCallees = ["BasicAuth", "Header", "Match", "Set"] ∧ authorizedWrites = 0 := by decide
-
-/-- The keys of the rule map the model calls `allow` and `deny`. -/
-theorem tags_pinned : ipAllowTag = "allow:ip" ∧ ipDenyTag = "deny:ip" := by decide
-
-/-- `Route.addTarget` processes the access options of every target it adds. -/
-theorem add_target_processes_rules : addTargetProcessesRules = true := by decide
-
-/-- Every error return of `ProcessAccessRules` is directly preceded by the installation of an allow list without
-blocks (`<recv>.accessRules = map…{"allow:ip": {}}`, written inline or as a call of a helper whose body is
-exactly that assignment, whatever its name) — the model's `Rules.denyAll`; repair of D16. -/
-theorem process_fails_closed :
-    processErrorReturns = processErrorReturnsFailClosed ∧ 0 < processErrorReturns ∧
-    denyAllInstallsEmptyAllowList = true := by decide
+/-- `Authorized` of every auth scheme (helpers inlined) stores into nothing but its own local variables — no
+field, no package variable, no map element, no channel, no goroutine. The decision on an attempt is a function of
+the attempt and the htpasswd file (`auth_decision_depends_only_on_attempt`), also when attempts overlap.
+Excludes: a cache of accepted credentials, a counter, a "last user" field (seeded m5). -/
+theorem authorized_stores_nothing : 0 < authSchemeTypes ∧ authorizedWrites = 0 := by decide
 
 end Fabio.Props.C12Facts
